@@ -1195,8 +1195,16 @@ int tls13_process_certificate_list(const uint8_t *cert_list, size_t cert_list_le
 			return -1;
 		}
 		if (x509_cert_from_der(&cert, &cert_len, &cert_data, &cert_data_len) != 1
-			|| asn1_length_is_zero(cert_data_len) != 1
-			|| x509_cert_to_der(cert, cert_len, &certs, certs_len) != 1) {
+			|| asn1_length_is_zero(cert_data_len) != 1) {
+			error_print();
+			return -1;
+		}
+		// certs is one of the TLS_MAX_CERTIFICATES_SIZE byte buffers of TLS_CONNECT
+		if (cert_len > TLS_MAX_CERTIFICATES_SIZE - *certs_len) {
+			error_print();
+			return -1;
+		}
+		if (x509_cert_to_der(cert, cert_len, &certs, certs_len) != 1) {
 			error_print();
 			return -1;
 		}
